@@ -169,6 +169,7 @@ def r7(F, rep):
     mirror.check(F, rep, "C05-R7", lambda f: f.cls == "colvarbias_meta" or f.name == "bin_distance_from_boundaries", 4,
                  "the metadynamics code and colvar_grid::bin_distance_from_boundaries() (which decides which hills are "
                  "kept for analytic evaluation outside the grid)")
+    mirror.copy_like_to_like(F, rep, "C05-R7", lambda c: c.startswith("colvar_grid"), 6)
 
 
 def r8(F, rep):
@@ -201,6 +202,55 @@ def r8(F, rep):
         raise AnalysisBroken("C05-R8: rebin_grids_after_restart / recount_hills_off_grid not found")
 
 
+def off_grid_membership(F, rep, rid):
+    """Shared with C03-R10 (the state reader classifies hills like the running bias)."""
+    rep.rule(rid, "one membership test for the hills kept for analytic evaluation: every hills_off_grid.push_back() is guarded by "
+                  "the same comparison of the same boundary-distance call (same callee, same constant arguments after the "
+                  "centres) with the same threshold -- at deposition, when the list is rebuilt and when hills are read back "
+                  "from a state")
+    sites = []
+    for f in F.funcs.values():
+        if f.cls != "colvarbias_meta" or f.body is None:
+            continue
+        res = X.const_locals(f)
+        for c in X.calls(f):
+            if c["k"] != "CXXMemberCallExpr" or X.callee_name(c) != "push_back" or X.receiver(c) is None or "hills_off_grid" not in X.key(X.receiver(c), f):
+                continue
+            from .rules_c03 import structural_guards
+            sig = None
+            for cn, pol in structural_guards(f, c):
+                k = X.strip(cn)
+                if k["k"] == "BinaryOperator" and k.get("op") in ("<", "<=", ">", ">="):
+                    lhs, rhs = X.kids(k)
+                    call = None
+                    for side, other in ((lhs, rhs), (rhs, lhs)):
+                        sd = X.strip(side)
+                        if sd["k"] == "DeclRefExpr" and sd.get("d") in res:
+                            sd = X.strip(res[sd["d"]])
+                        if sd["k"] == "CXXMemberCallExpr" and X.callee_name(sd).startswith("bin_distance"):
+                            call, thr = sd, other
+                    if call is not None:
+                        extra = tuple(X.re_strip(X.key(a, f, res)) for a in X.call_args(call)[1:])
+                        sig = (call.get("cq"), extra, k.get("op"), pol, X.re_strip(X.key(thr, f, res)))
+            sites.append((f, c, sig))
+    if len(sites) < 3:
+        raise AnalysisBroken("%s: only %d hills_off_grid.push_back sites found" % (rid, len(sites)))
+    sigs = [sg for _, _, sg in sites if sg is not None]
+    ref = max(set(sigs), key=sigs.count) if sigs else None
+    seen = set()
+    for f, c, sg in sites:
+        key = "%s|%s" % (f.q.split("<")[0], X.re_strip(X.key(X.call_args(c)[0], f))[:30])
+        if key in seen:
+            continue
+        seen.add(key)
+        rep.add(rid, "off-grid|" + key, f.loc(c), "%s keeps a hill for analytic evaluation under %s" % (f.q, sg if sg else "NO boundary-distance test"),
+                sg is not None and sg == ref, detail="the reference test is %s: a hill classified differently on one path makes the bias outside the grid depend on the history (restart, rebuild)" % (ref,), func=f.q)
+
+
+def r9(F, rep):
+    off_grid_membership(F, rep, "C05-R9")
+
+
 def run(F, rep, tier):
     r1(F, rep)
     r2(F, rep)
@@ -209,3 +259,4 @@ def run(F, rep, tier):
     r5_r6(F, rep)
     r7(F, rep)
     r8(F, rep)
+    r9(F, rep)
